@@ -125,6 +125,11 @@ def _assemble(desc):
             r = rng.randrange(4)
             v = rng.randrange(nV)
             invalid.append([[v, v], [nV, v], [v, nV + 3], [-1, v]][r])
+    if kind == "points" and desc["seed"] % 3 == 0:
+        # a point set whose declared edges are all invalid (self-loops, out of range): nothing of dimension 1 survives, the result is a point cloud
+        for _ in range(rng.randint(1, 3)):
+            v = rng.randrange(nV)
+            invalid.append([[v, v], [nV, v], [v, nV + 3], [-1, v]][rng.randrange(4)])
     allrows = [(r, True) for r in rows] + [(r, False) for r in invalid]
     rng.shuffle(allrows)
     # attributes
@@ -344,7 +349,7 @@ def _check_norm(ctx, m, inp, desc, route):
     nV = len(V)
     ce, cf = desc["complete_edges"], desc["complete_faces"]
     # class
-    dim = 3 if C else (2 if F else (1 if any(ok for _, ok in inp["E"]) or inp["E"] else 0))
+    dim = 3 if C else (2 if F else (1 if any(ok for _, ok in inp["E"]) else 0))  # dropped (invalid) edges are not "present"
     want_cls = ["PointCloud", "PolyLine", "SurfaceMesh", "VolumeMesh"][dim]
     ctx.check(type(m).__name__ == want_cls, "norm", "class", "wrong_class", "class does not match the highest-dimensional element present",
               got=type(m).__name__, want=want_cls)
